@@ -8,7 +8,7 @@ import tempfile
 import shutil
 
 
-def probe(family, addr, timeout=5.0):
+def probe(family, addr, timeout=30.0):
     """Returns ('answered', first line) / ('refused',) / ('error', repr)."""
     s = socket.socket(family, socket.SOCK_STREAM)
     s.settimeout(timeout)
@@ -139,7 +139,7 @@ def main():
             down['unix'] = probe(socket.AF_UNIX, tmp + '/p.sock', timeout=2.0)
             res['unix_socket_file_left'] = os.path.exists(tmp + '/p.sock')
         res['probes_down'] = down
-        deadline = time.time() + 10
+        deadline = time.time() + 30
         kids = children(os.getpid())
         while kids and time.time() < deadline:
             time.sleep(0.1)
